@@ -319,6 +319,67 @@ theorem wf_listResources (reg : Registry) : wfResult t!"resources/list" (.obj [(
 theorem wf_initResult (reg : Registry) (v : Text) : wfResult t!"initialize" (initResult reg v) = true := by
   simp [initResult, encodeInit, wfResult, optIs, reqIs, lookup, isStr, isObj, wfImplementation, Mcp.Lifecycle.answerInit]
 
+theorem findTool_mem {ts : List ToolEntry} {n : Text} {t : ToolEntry} (h : findTool ts n = some t) : t ∈ ts ∧ t.desc.name = n := by
+  unfold findTool at h
+  exact ⟨List.mem_of_find?_eq_some h, by simpa using List.find?_some h⟩
+
+theorem findPrompt_mem {ps : List PromptEntry} {n : Text} {p : PromptEntry} (h : findPrompt ps n = some p) : p ∈ ps ∧ p.name = n := by
+  unfold findPrompt at h
+  exact ⟨List.mem_of_find?_eq_some h, by simpa using List.find?_some h⟩
+
+theorem findResource_mem {rs : List ResEntry} {u : Text} {r : ResEntry} (h : findResource rs u = some r) : r ∈ rs ∧ r.uri = u := by
+  unfold findResource at h
+  exact ⟨List.mem_of_find?_eq_some h, by simpa using List.find?_some h⟩
+
+theorem toolArguments_error (m : Obj) (e : Ans) (h : toolArguments m = .error e) : ∃ msg, e = .error codeInvalidParams msg := by
+  unfold toolArguments at h
+  split at h <;> simp at h <;> exact ⟨_, h.symm⟩
+
+theorem runTool_wf (reg : Registry) (h : reg.Conforming) (tool : ToolEntry) (ht : tool ∈ reg.tools) (a : Option Obj) (r : Json)
+    (hr : runTool tool a = .result r) : wfResult t!"tools/call" r = true := by
+  unfold runTool at hr
+  split at hr <;> simp at hr
+  rename_i r' hrun
+  subst hr
+  exact wf_callResult r' (h.tools tool ht a r' hrun)
+
+theorem handleCallTool_wf (reg : Registry) (h : reg.Conforming) (req : Req) (r : Json)
+    (hr : handleCallTool reg req = .result r) : wfResult t!"tools/call" r = true := by
+  unfold handleCallTool at hr
+  repeat' split at hr
+  all_goals first | (simp at hr; done) | skip
+  · rename_i e he
+    obtain ⟨msg, rfl⟩ := toolArguments_error _ _ he
+    simp at hr
+  · rename_i tool hfind _ a _
+    exact runTool_wf reg h tool (findTool_mem hfind).1 a r hr
+
+theorem handleGetPrompt_wf (reg : Registry) (h : reg.Conforming) (req : Req) (r : Json)
+    (hr : handleGetPrompt reg req = .result r) : wfResult t!"prompts/get" r = true := by
+  unfold handleGetPrompt at hr
+  repeat' split at hr
+  all_goals first | (simp at hr; done) | skip
+  rename_i p hfind
+  unfold runPrompt at hr
+  split at hr <;> simp at hr
+  rename_i r' hrun
+  subst hr
+  exact wf_getPrompt r' (h.prompts p (findPrompt_mem hfind).1 _ r' hrun)
+
+theorem handleReadResource_wf (reg : Registry) (h : reg.Conforming) (req : Req) (r : Json)
+    (hr : handleReadResource reg req = .result r) : wfResult t!"resources/read" r = true := by
+  unfold handleReadResource at hr
+  repeat' split at hr
+  all_goals first | (simp at hr; done) | skip
+  rename_i e hfind
+  unfold runResource at hr
+  split at hr <;> simp at hr
+  rename_i cs hrun
+  subst hr
+  have := h.resources e (findResource_mem hfind).1 _ cs hrun
+  cases cs with
+  | none => simp at this
+  | some l => exact wf_readResource l
 /-! ## concrete instances (non-vacuity examples and counterexamples of the property files) -/
 
 def objectSchema : Json := .obj [(t!"type", .str t!"object")]
